@@ -361,10 +361,14 @@ def gen_cases_ext(rng, tier, n_classes, immutable=False):
         if rng.random() < 0.45:
             case = dict(case, cls=json.loads(json.dumps(case["cls"])), kw=list(case["kw"]))
             fields = case["cls"]["fields"]
-            fmt = rng.choice(["date:%Y-%m-%d", "date:%d/%m/%Y", "time", "ipv4", "hostname", "json"])
-            good = [v for v in formats.POOL if doc_formats.ok(fmt, v)]
-            fields.append(["z", {"k": "string", "fmt": fmt}])
-            fields.append(["y", {"k": "seqOf", "item": {"k": "string", "fmt": fmt}}])
+            zd = gen.DeclGen(rng).xstring()       # SizedString / IPV4 / HostName / DateString(format) / TimeString / JSONString
+            good = [v for v in (vg.valid(zd) for _ in range(6)) if v is not gen.NOVALUE]
+            good += [v for v in formats.POOL + ["", "a", "ab"] if vg.guess_str_ok(zd, v)][:4]
+            if not good:
+                zd = {"k": "string", "fmt": "time"}
+                good = ["10:20:30", "1:2:3"]
+            fields.append(["z", zd])
+            fields.append(["y", {"k": "seqOf", "item": zd}])
             if rng.random() < 0.5:
                 case["cls"]["required"] = sorted(case["cls"]["required"] + ["z"])
                 case["kw"].append(["z", rng.choice(good)])
